@@ -362,6 +362,14 @@ def step (st : State) (w : List String) : State × String :=
       let c := c0.run es
       (st, s!"replies={",".intercalate rs} v0={show' (c.fetch false)} v1={show' (c.fetch true)}")
     | none => (st, "bad-op")
+  | "window" :: "check" :: _ =>
+    let r : Option String := do
+      let now ← (field w "now").toInt?
+      let inc ← (field w "inc").toNat?
+      let exp ← (field w "exp").toNat?
+      let sg : Sig := { id := 0, owner := [], covered := 1, alg := 13, labels := 0, expiration := exp, inception := inc, tag := 0, signer := [] }
+      some s!"valid={boolStr (inWindow now sg)}"
+    (st, r.getD "bad-op")
   | "l3" :: _ => (st, "unmodelled")
   | _ => (st, "bad-op")
 
